@@ -205,7 +205,14 @@ def chain(
                 if else_ is not None:
                     exc_type, cb = else_
                     if isinstance(err, exc_type):
-                        target.set_result(cb(err))
+                        # The handler may itself raise (e.g. re-raise): the
+                        # target must fail then, not stay pending forever.
+                        try:
+                            handled = cb(err)
+                        except Exception as cb_err:
+                            target.set_exception(cb_err)
+                        else:
+                            target.set_result(handled)
                     else:
                         target.set_exception(err)
                 else:
